@@ -122,6 +122,36 @@ func init() {
 	})
 }
 
+func init() {
+	register("C10", &Property{
+		Title: "Built paths are well-formed; operations on them are total and side-effect free",
+		Explanation: "Decides, for every path and argument: (1) every exported method of *Path/Paths other than the documented in-place mutators/sinks (each re-justified by its doc phrase) writes no memory reachable from its receiver or arguments — interprocedural effect analysis on SSA; the copy-on-write latch of replace is verified structurally; (2) the command encoding discipline: cmdLen vs the format, payload offsets inside the decoded record, every record built/retagged with the command at both ends; Split hands out capacity-limited sub-slices; (3) no in-place transform accumulates over loop iterations, no loop state variable is stuck at its initial constant. NOT decided: 'no zero-length segments', the geometry the builders trace, implicit run-time panics other than those named, termination.",
+		Assumptions: []string{"standard-library functions not in the mutator table are pure (listed in coverage.external_assumed)", "results of calls through function-typed parameters are fresh objects", "one reviewed call edge: Dash -> Join (reason in the checker's exception table)"},
+		Run: func(c *core.Ctx, r *core.Report) {
+			E1PathMethods(c, r)
+			E2CmdLenTable(c, r)
+			E2RecordLayout(c, r)
+			E2RecordConstruction(c, r)
+			E11SplitCap(c, r)
+			E11StuckVariables(c, r)
+			E11InPlaceInLoop(c, r)
+		},
+	})
+}
+
+func init() {
+	register("C14", &Property{
+		Title: "Rasterization paints exactly the pixels inside the filled region",
+		Explanation: "Decides, for every canvas: (1) 'rendering leaves the canvas, its paths and its gradients unchanged': RenderPath/RenderText/RenderImage of all four back-ends, Canvas.RenderTo/RenderViewTo and rasterizer.Draw write no memory reachable from the path, style (dash array, gradient stops, patterns), text, image or canvas arguments (interprocedural effect analysis on SSA with callback-invocation summaries); (2) the rasterizer reads every Style field including the fill rule; (3) every scanner emission maps coordinates as (x*dpmm, height-y*dpmm) and the image size is width x height x resolution in both constructors. NOT decided: pixel coverage, anti-aliasing, later-draws-cover-earlier, determinism of the scanner library.",
+		Assumptions: []string{"standard-library functions not in the mutator table are pure (listed in coverage.external_assumed)", "results of calls through function-typed parameters are fresh objects", "third-party Go dependencies are analysed from source, cgo is not"},
+		Run: func(c *core.Ctx, r *core.Report) {
+			E1Renderers(c, r)
+			E6StyleCoverage(c, r, map[string]bool{"Rasterizer": true})
+			E6ScannerSites(c, r)
+		},
+	})
+}
+
 // c20APIRoots is the concurrent/deterministic API set derived from the text of C20.
 func c20APIRoots(c *core.Ctx) []*ssa.Function {
 	var out []*ssa.Function
